@@ -91,6 +91,20 @@ def handle (args : List Sexp) : String :=
     match typeOfSexp t, tvOfSexp v with
     | some t, some v => s!"({sexpOfType (TV.typeOf v)} {coerceTag t v})"
     | _, _ => "(error bad-args)"
+  -- `(c16 bind (T1 … Tn) (v1 … vm))`: what `eval_function_positional` binds the parameters to (one tag per
+  -- parameter), `(none)` for the early null
+  | [.atom "bind", .list ts, .list vs] =>
+    match ts.mapM typeOfSexp, vs.mapM tvOfSexp with
+    | some ts, some vs =>
+      let ps := ts.mapIdx (fun i t => (s!"p{i}", t))
+      match ValOps.bindPositional TV.ops ps vs with
+      | none => "(none)"
+      | some _ => "(some " ++ " ".intercalate (List.zipWith coerceTag ts vs) ++ ")"
+    | _, _ => "(error bad-args)"
+  | [.atom "instanceof", v, t] =>
+    match tvOfSexp v, typeOfSexp t with
+    | some v, some t => s!"({TV.instanceOf v t} {FType.conf (TV.typeOf v) t})"
+    | _, _ => "(error bad-args)"
   | _ => "(error bad-request)"
 
 end Dmn.Driver.C16
